@@ -397,7 +397,7 @@ def run_concrete_batch(ctx, jobs):
 # --------------------------------------------------------------------------------------------------
 
 BOUNDARY = [0, 1, 2, 3, 4, 5, 31, 32, 33, 255, 256, W - 1, W - 2, 1 << 255, (1 << 255) - 1, 1 << 128, (1 << 128) - 1,
-            (1 << 160) - 1, 0x1000, 0x2000, 0x2001]
+            (1 << 160) - 1, 0x1000, 0x2000, 0x2001, ALLOC_BASE, ALLOC_BASE + 1]   # incl. the first addresses CREATE allocates
 
 
 def random_inputs(rng, scn: Scenario, pool=None) -> Inputs:
